@@ -751,3 +751,37 @@ func (c *Ctx) stringAlts(fn *ssa.Function, v ssa.Value, depth int) []strAlt {
 	}
 	return []strAlt{{term: c.term(fn, v), cond: truth}}
 }
+
+// flatTemplate: the string-building expression v as one template and its operands, with
+// nested templates spliced in: Sprintf("%s_%d", a+"_"+b, i) and Sprintf("%s_%s_%d", a, b, i)
+// both give ("%s_%s_%d", [a b i]). ok=false when v is not a Sprintf / concatenation.
+func flatTemplate(v ssa.Value, depth int) (string, []ssa.Value, bool) {
+	f, ops, ok := sprintfOf(v)
+	if !ok {
+		f, ops, ok = concatTemplate(v)
+	}
+	if !ok {
+		return "", nil, false
+	}
+	if depth > 4 {
+		return f, ops, true
+	}
+	for i := 0; i < len(ops); i++ {
+		start, end := verbSpan(f, i)
+		if start < 0 || f[start:end] != "%s" {
+			continue
+		}
+		if s, isC := strConst(ops[i]); isC {
+			f = f[:start] + strings.ReplaceAll(s, "%", "%%") + f[end:]
+			ops = append(append([]ssa.Value{}, ops[:i]...), ops[i+1:]...)
+			i--
+			continue
+		}
+		if sf, sops, ok := flatTemplate(ops[i], depth+1); ok {
+			f = f[:start] + sf + f[end:]
+			ops = append(append(append([]ssa.Value{}, ops[:i]...), sops...), ops[i+1:]...)
+			i += len(sops) - 1
+		}
+	}
+	return f, ops, true
+}
